@@ -86,3 +86,11 @@ func (l *LLk) Consume(tt lexer.TokenType) bool {
 	appendNextToken(l)
 	return true
 }
+
+// drain reads whatever the lexer still has to deliver, so that the goroutine
+// feeding the channel can run to completion instead of blocking for ever on a
+// channel nobody reads any more.
+func (l *LLk) drain() {
+	for range l.c {
+	}
+}
